@@ -22,6 +22,7 @@
   `InnerFunction` with `batchSize = 0`.
 -/
 import Lattigo.Proofs.GaloisDlog
+import Lattigo.Proofs.GaloisNTTIndex
 import Lattigo.Proofs.InnerSumTrace
 import Lattigo.Proofs.InnerSumSchemes
 
@@ -121,6 +122,28 @@ theorem dlog_galEl (t : Nat) (ht : t + 3 ≤ 64) (k : Int) :
 
 example : solveDiscreteLog 32 (galEl 32 (-1)) = some 7 := by
   have := dlog_galEl 2 (by norm_num) (-1); simpa using this
+
+/-- mutual inverse, other direction: on the image of `GaloisElement`,
+    `GaloisElement(SolveDiscreteLogGaloisElement(g)) = g`. -/
+theorem galEl_dlog (t : Nat) (ht : t + 3 ≤ 64) (k : Int) :
+    ∃ d, solveDiscreteLog (2 ^ (t + 3)) (galEl (2 ^ (t + 3)) k) = some d ∧
+      galEl (2 ^ (t + 3)) (d : Int) = galEl (2 ^ (t + 3)) k := by
+  refine ⟨_, dlog_galEl t ht k, ?_⟩
+  rw [galEl_mod_slots t ht k]
+  congr 1
+  have hpos : (0 : Int) < ((2 ^ (t + 1) : Nat) : Int) := by positivity
+  have := Int.emod_nonneg k (by omega : ((2 ^ (t + 1) : Nat) : Int) ≠ 0)
+  omega
+
+/-- **`nttIndex_perm`**: `ring.AutomorphismNTTIndex(N, 2N, g)` is a permutation of `[0, N)` for
+    every odd `g` (table of length `N`, no repetition, entries `< N`). -/
+theorem nttIndex_perm (m : Nat) (hm1 : 1 ≤ m) (hm : m ≤ 64) (g : Nat) (hg : g % 2 = 1) :
+    ∃ l, automorphismNTTIndex (2 ^ (m - 1)) (2 ^ m) g = some l ∧ l.length = 2 ^ (m - 1) ∧
+      l.Nodup ∧ ∀ x ∈ l, x < 2 ^ (m - 1) :=
+  Proofs.Galois.nttIndex_perm m hm1 hm g hg
+
+example : automorphismNTTIndex 16 32 5 = some [4, 5, 6, 7, 3, 2, 0, 1, 14, 15, 13, 12, 8, 9, 10, 11] := by
+  decide +kernel
 
 /-- for `nthRoot < 8` the Go loop of `SolveDiscreteLogGaloisElement` never terminates
     (`x = N>>3 = 0`): the model runs out of fuel.  Not reachable (`MinLogN = 4`). -/
@@ -409,6 +432,8 @@ open Lattigo.Props.C11
 #print axioms modInv_spec
 #print axioms modInv_galEl
 #print axioms dlog_galEl
+#print axioms galEl_dlog
+#print axioms nttIndex_perm
 #print axioms dlog_diverges_small
 #print axioms orderTwo_spec
 #print axioms innerSum_spec
